@@ -36,9 +36,35 @@ def mkState (ps : List P) : State :=
     peers := idx.map fun (p, i) => ⟨i, if p.hs then some ⟨clampSize p.raw, p.hasMeta⟩ else none⟩,
     dls := (idx.filter (·.1.busy)).map fun (_, i) => (i, new 0) }
 
+/-- Guard skeleton of the `Data` case of `handleMetadataMessage`, as `Rain.Adopt.step` models it
+(branch order of `.data`): no downloader for the peer → nothing; `GotBlock` error → close peer;
+not `Done()` → request more; **SHA-1 of `id.Bytes` ≠ info-hash → close peer** (`decide_`, first
+test); `parseInfo(id.Bytes)` error → stop; private → stop; then `t.info = info`. -/
+def expectedGate : String :=
+  "guards=!ok=>break;err!=nil=>break;!id.Done()=>break;!bytes.Equal(hash.Sum(nil),t.infoHash[:])=>break;" ++
+  "err!=nil=>break;info.Private=>break hashed=id.Bytes parsed=id.Bytes assigned=info"
+
+def hashGuard : String := "!bytes.Equal(hash.Sum(nil),t.infoHash[:])=>break"
+
+/-- Oracle on the extracted skeleton: the hash guard is there, it terminates the case, it comes
+before parsing (i.e. before the last two guards), and the bytes hashed are the bytes parsed. -/
+def gateViolations (implObs : String) : List String :=
+  let itoks := words implObs
+  let guards := (kvStr itoks "guards").splitOn ";"
+  let hashed := kvStr itoks "hashed"
+  let parsed := kvStr itoks "parsed"
+  match guards.idxOf? hashGuard with
+  | none => ["C13 hash-gate-missing"]
+  | some i =>
+    (if guards.length ≥ i + 3 ∨ ¬ guards.any (· = "info.Private=>break") then []
+     else ["C13 hash-gate-after-parse"]) ++
+    (if hashed ≠ parsed ∨ hashed = "-" ∨ hashed = "" then [s!"C13 hash-gate-other-bytes hashed={hashed} parsed={parsed}"] else []) ++
+    (if guards.any (· = "info.Private=>break") then [] else ["C13 private-gate-missing"])
+
 def step (op implObs : String) : String × List String × List String :=
   let toks := words op
   let itoks := words implObs
+  if toks.head? = some "gate" then (expectedGate, gateViolations implObs, ["branch:gate"]) else
   if toks.head? ≠ some "next" then ("unknown-op", [], []) else
   let max := kvNat toks "max"
   let ps := parsePeers (kvStr toks "peers")
